@@ -325,10 +325,16 @@ class HTMLSerializer(object):
                 elif in_cdata:
                     self.serializeError("Unexpected child element of a CDATA element")
                 unquoted_value_last = False
+                minimized_last = False
                 for (_, attr_name), attr_value in token["data"].items():
                     # TODO: Add namespace support here
                     k = attr_name
                     v = attr_value
+                    if minimized_last and k.startswith("="):
+                        # (read back, the "=" would give the value-less
+                        # attribute before it a value)
+                        self.serializeError("Attribute name starting with = after a minimized attribute")
+                    minimized_last = False
                     yield self.encodeStrict(' ')
 
                     yield self.encodeStrict(k)
@@ -366,6 +372,8 @@ class HTMLSerializer(object):
                         else:
                             yield self.encode(v)
                             unquoted_value_last = True
+                    else:
+                        minimized_last = True
                 if (name in voidElements and self.use_trailing_solidus and
                         token.get("namespace") in (None, namespaces["html"])):
                     # (only HTML elements are void: "<svg><link />" would make
